@@ -25,6 +25,7 @@ type feedOpts struct {
 	onlyValidBases       bool
 	noDepthSites         bool
 	depthSitesLite       bool // a 16-document subset (for expensive per-input checks)
+	boundaries           bool // long documents corrupted at positions round 64, 128, ..., 65536 (chunked scanners)
 	alignment            bool // runs of every token class at every length 0..40 x special byte x tail length (word-at-a-time scanners)
 }
 
@@ -159,6 +160,55 @@ func (e *env) feed(o feedOpts, f inputFn) {
 				}
 			}
 		}
+	}
+
+	// 2c. chunk boundaries: long well-formed documents (70 KB) are corrupted / truncated at
+	// positions round 2^k (k = 6..16), where chunked or block-wise scanners change regime
+	if o.boundaries {
+		e.rapidStage("boundaries", "sweep", cfg.N(4, 160), func(rt *rapid.T) {
+			p := gen.AnyProfile(rt)
+			doc := []byte{'['}
+			for len(doc) < 70000 {
+				if len(doc) > 1 {
+					doc = append(doc, ',')
+				}
+				switch rapid.IntRange(0, 3).Draw(rt, "elem") {
+				case 0:
+					doc = gen.Val(rt, doc, p, 3)
+				case 1:
+					doc = gen.Str(rt, doc, 30)
+				case 2:
+					doc = gen.Num(rt, doc)
+				default:
+					doc = append(doc, `{"k":[1,"two\n",{"three":[]}]}`...)
+				}
+			}
+			doc = append(doc, ']')
+			if err := call("boundary.base", doc); err != nil {
+				failRapid(rt, r, caseOf(cfg.Prop, "boundary", doc, err), err)
+			}
+			hostile := []byte("\"\\\x1f\x00,]}[{e.:9 \n\xff")
+			m := make([]byte, len(doc))
+			for k := 6; k <= 16; k++ {
+				for d := -2; d <= 2; d++ {
+					pos := 1<<uint(k) + d
+					if pos >= len(doc) {
+						continue
+					}
+					if err := call("boundary.trunc", doc[:pos]); err != nil {
+						failRapid(rt, r, caseOf(cfg.Prop, "boundary", doc[:pos], err), err)
+					}
+					for _, h := range hostile {
+						copy(m, doc)
+						m[pos] = h
+						if err := call("boundary.subst", m); err != nil {
+							failRapid(rt, r, caseOf(cfg.Prop, "boundary", m, err), err)
+						}
+					}
+				}
+			}
+			r.Label("boundary.base")
+		})
 	}
 
 	// 3. position x byte sweeps around grammar-generated documents
